@@ -187,6 +187,7 @@ Theorem C09_cull : forall c s now vols s' n,
   exists s1 n1,
     op_expire s now = (s1, RInt n1)
     /\ (forall r, removed s s1 r -> passed now r = true)
+    /\ (forall r, In r (rows s1) -> expire_due 0 now r = false)
     /\ (forall r, In r (rows s') -> In r (rows s1)) /\ (forall r, In r (rows s1) -> In r (rows s))
     /\ (forall r r', removed s1 s' r -> In r' (rows s') -> policy_key (c_policy c) r <= policy_key (c_policy c) r')
     /\ (c_policy c = PNone -> s' = s1)
